@@ -52,6 +52,9 @@ def client_program(rng, c, avoid, hc_names, shared_pool=None):
         if sb is None:
             sb = c20.bad_op(rng, gen.pick(rng, c20.BAD_KINDS), lfi, spec, 0)
         bop = dict(sb[0], h='c%d_bad' % c, c=c)
+        if rng.random() < 0.5 and bop.get('kind') != 'origin':
+            # the rejected call names another set of its type than the valid calls use
+            bop['kwargs'] = dict(bop.get('kwargs') or {}, set_name='REJ')
         prog.insert(rng.randint(3, len(prog)), bop)
     nw = rng.choice([1, 2, 2, 3])
     if 'second_write_param' in avoid and any(op.get('kind') in ('parameter', 'computation') and 'values' in op.get('kwargs', {})
@@ -125,6 +128,9 @@ def client_program(rng, c, avoid, hc_names, shared_pool=None):
                 cands = [op for op in spec.ops if op.get('op') == 'add' and op['kind'] in ('zone', 'equipment', 'channel')]
                 if cands:
                     op = gen.pick(rng, cands)
+                    if op['kind'] == 'channel' and 'long_name' not in op['kwargs'] and rng.random() < 0.4:
+                        # the user first supplies, explicitly, the long name the earlier write had defaulted (the channel's name)
+                        prog.append({'op': 'set', 'h': op['h'], 'attr': 'long_name', 'part': 'value', 'v': op['name'], 'c': c})
                     prog.append({'op': 'set_prop', 'h': op['h'], 'prop': 'name', 'v': 'RENAMED%d' % k, 'c': c})
     return prog
 
@@ -150,7 +156,13 @@ def gen_case(rng, tier, avoid):
         # open and close the high-compatibility context around a random contiguous stretch of the history
         a = rng.randint(0, len(hist) - 2)
         b = rng.randint(a + 1, min(len(hist), a + 12))
-        hist = hist[:a] + [{'op': 'hc_block', 'form': rng.choice(['with', 'decorator']), 'body': hist[a:b]}] + hist[b:]
+        body = hist[a:b]
+        lfs_before = [op['lf'] for op in hist[:b] if op.get('op') == 'add_lf']
+        if lfs_before and rng.random() < 0.5:
+            # the context is left by an exception: a call the mode rejects, which the caller lets propagate out of the block
+            body = body + [{'op': 'add', 'lf': gen.pick(rng, lfs_before), 'kind': 'zone', 'h': 'hc_rej', 'name': 'not hc compatible',
+                            'kwargs': {}, 'propagate': True, 'c': 9, 'bad': 'rejected_by_mode'}]
+        hist = hist[:a] + [{'op': 'hc_block', 'form': rng.choice(['with', 'decorator']), 'body': body}] + hist[b:]
     if tier == 'thorough' and rng.random() < 0.01:
         hist.insert(rng.randint(0, len(hist)), {'op': 'flood', 'n': 70000})
     return {'scenario': {'env': {'tz': rng.choice(['UTC', 'UTC', 'Asia/Kolkata', 'America/New_York'])}, 'history': hist},
